@@ -15,7 +15,7 @@ DELAYS = [0, 0, 0, 1e-3, 0.05, 0.1 - E, 0.1, 0.1 + E, 0.15, 0.3, 1.0]
 SHORT = [0, 0, 1e-3, 0.05, 0.1]
 ASYNC_KINDS = ['async', 'async', 'async', 'amethod', 'aclassm', 'abusm']
 SYNC_KINDS = ['sync', 'smethod', 'sclassm', 'sbusm']
-EXCS = ['ValueError', 'KeyError', 'RuntimeError', 'Custom', 'LoopClosed', 'NoLoop', 'OSError', 'ZeroDivisionError', 'Unhashable', 'TwoArg', 'Chained', 'Unprintable']
+EXCS = ['ValueError', 'KeyError', 'RuntimeError', 'Custom', 'LoopClosed', 'NoLoop', 'OSError', 'ZeroDivisionError', 'Unhashable', 'TwoArg', 'Chained', 'Unprintable', 'StopIter']
 EXCS_ALL = EXCS + ['TimeoutError']  # a user-raised TimeoutError is treated by the library as a handler timeout (cancels pending child results)
 
 DEFAULT = dict(
@@ -50,6 +50,7 @@ def rand_prog(rng: random.Random, c: dict, level: int, nb: int, own_bus: int, sy
                 opts = {}
                 if c.get('p_age') and rng.random() < c['p_age']:
                     opts['age'] = rng.choice([0.5, 5.0, 60.0])
+                    opts['naive'] = rng.random() < 0.3
                 if rng.random() < c.get('p_rtype', 0.1):
                     opts['rtype'] = rng.choice(['str', 'int', 'list', 'dict'])  # the event declares a result type
                 if rng.random() < c['p_explicit_parent']:
@@ -61,7 +62,7 @@ def rand_prog(rng: random.Random, c: dict, level: int, nb: int, own_bus: int, sy
             prog.append(['raise', rng.choice(c['exc_kinds'])])
         elif x < 0.80 + c['p_bus'] + c['p_raise'] + c['p_retexc']:
             # (an object whose __str__ raises cannot be *returned*: the library formats return values for its debug log; raising it is fine)
-            prog.append(['retexc', rng.choice([k for k in c['exc_kinds'] if k != 'Unprintable'])])
+            prog.append(['retexc', rng.choice([k for k in c['exc_kinds'] if k not in ('Unprintable', 'StopIter')])])
         elif x < 0.80 + c['p_bus'] + c['p_raise'] + c['p_retexc'] + c['p_redisp']:
             if not wild:
                 prog.append(['redisp', own_bus])
@@ -122,6 +123,7 @@ def random_scenario(rng: random.Random, c: dict) -> dict:
                 opts = {}
                 if c.get('p_age') and rng.random() < c['p_age']:
                     opts['age'] = rng.choice([0.5, 5.0, 60.0])
+                    opts['naive'] = rng.random() < 0.3
                 if rng.random() < c.get('p_rtype', 0.1):
                     opts['rtype'] = rng.choice(['str', 'int', 'list', 'dict'])
                 ops.append(['disp', rng.randint(0, max(0, c['levels'] - 2)), rng.randrange(nb), 'await' if rng.random() < c['actor_await'] else 'fire', rng.choice(DELAYS), opts])
@@ -389,6 +391,32 @@ def timeout_derive(sc: dict, t: float, rng: random.Random):
         yield sc
 
 
+def late_fwd_scenario(rng: random.Random, i: int) -> dict:
+    """Forwarding topologies that change while the program runs: wildcard / typed / named forwards attached to a bus after it has
+    already processed events of that type, with more events of the same and of fresh types afterwards."""
+    c = cfg(nb=(2, 4), p_fwd=0.6, p_wild=0.05, p_strpat=0.2, handlers_per=(1, 1, 2), n_actors=(1, 2), actor_ops=(2, 5), p_par=0.15, p_redisp=0.0, levels=3)
+    sc = random_scenario(rng, c)
+    nb = len(sc['buses'])
+    have = {(a, d) for a, d, _p in sc.get('fwd', [])}
+    late, ops = [], []
+    for _ in range(rng.randint(1, 2)):
+        a = rng.randrange(nb)
+        d = rng.choice([x for x in range(nb) if x != a])
+        if (a, d) in have:
+            continue
+        have.add((a, d))
+        pat = rng.choice(['*', '*', 0, 'E0', 1])
+        late.append([a, d, pat])
+        t = 0 if pat in ('*', 0, 'E0') else 1
+        # events of that type through bus a before and after the forward is attached
+        ops += [['disp', t, a, rng.choice(['fire', 'await']), rng.choice([0, 0.05]), {}], ['sleep', rng.choice([0, 0.05, 0.3])], ['on_fwd', len(late) - 1]]
+        ops += [['disp', t, a, rng.choice(['fire', 'await']), rng.choice([0, 0.01]), {}] for _k in range(rng.randint(1, 2))]
+        ops.append(['disp', rng.choice([0, 1, 2]), a, 'fire', 0, {}])
+    sc['late_fwd'] = late
+    sc['actors'].append(ops)
+    return sc
+
+
 def late_on_scenario(rng: random.Random, i: int) -> dict:
     """Handlers registered while the program is running - by class, by name and as wildcards - with events of their type
     processed before, queued across, and dispatched after the registration."""
@@ -569,7 +597,7 @@ def expect_base(rng: random.Random, i: int) -> dict:
         if pinned and rng.random() < 0.5:
             t = 6
         spec = {'type': (t if rng.random() < 0.6 else ('PinnedWire6' if t == 6 else f'E{t}')), 'include': pred(), 'exclude': pred() if rng.random() < 0.5 else None,
-                'predicate': pred() if rng.random() < 0.3 else None, 'timeout': rng.choice([0.05, 0.2, 0.5, 1.0, 3.0, None, 0, 0.0, -1.0])}
+                'predicate': pred() if rng.random() < 0.3 else None, 'timeout': rng.choice([0.05, 0.2, 0.5, 1.0, 3.0, None, 0, 0.0, -1.0]), 'falsy_filters': rng.random() < 0.2}
         actors.append([['sleep', rng.choice([0, 0, 0.02, 0.1, 0.4])], ['expect', rng.randrange(nb), spec]])
     return {'seed': rng.randrange(1 << 30), 'buses': buses, 'fwd': [], 'handlers': hs, 'actors': actors, 'n_exp': n_exp, 'W': 4.0}
 
@@ -602,6 +630,8 @@ def rand_payload(rng: random.Random, depth: int = 0):
         if x < 0.75:
             return rng.choice(['', 'a', 'hello world', 'ü-ß-é', '日本語', '𝄞 clef', 'emoji 😀', 'quote " backslash \\ newline \n tab \t', '\u0000nul', 'a' * 200, '</script>', '{"not": "json"}',
                                'x' * 20000, 'line1\r\nline2', '\u2028 line separator \u2029', 'trailing space ', "single ' quote"])
+        if x < 0.79:
+            return {'$utf8': rng.choice(['hello', 'ICO \x00\x01 data', 'ünï-bytes', '', 'x' * 300])}  # bytes values
         if x < 0.88:
             return {'$dt': rng.choice(['2024-01-02T03:04:05+00:00', '1999-12-31T23:59:59.999999+05:30', '2030-06-15T12:00:00', '2024-02-29T00:00:00.000001-08:00'])}
         return rng.randint(-1000, 1000)
